@@ -240,6 +240,19 @@ func profLockstep(en *Env) {
 			id, _ := vs.New(5 + en.R.Intn(40))
 			sc = append(sc, scriptStep{"Put", k, id, 0})
 		}
+		// a batch that is larger than the smallest file-size limits (flushed in pieces over several files there, in one
+		// piece elsewhere), then a restart: the recovered mapping must not depend on the limit
+		if batches { // (batch ids are time-based: the scripts whose file bytes are compared stay batch-free)
+			sc = append(sc, scriptStep{"NewBatch", 0, 0, 0})
+			for k := 1; k <= nkeys; k++ {
+				id, _ := vs.New(150 + en.R.Intn(200))
+				sc = append(sc, scriptStep{"BPut", k, id, 0})
+				if en.R.Intn(3) == 0 {
+					sc = append(sc, scriptStep{"BDelete", 1 + en.R.Intn(nkeys), 0, 0})
+				}
+			}
+			sc = append(sc, scriptStep{"Commit", 0, 0, 0}, scriptStep{"Restart", 0, 0, 0}, scriptStep{"Iterate", 0, 0, 0})
+		}
 		for a := 0; a < 2; a++ { // an iterator kept open across an overwrite and a delete, both directions
 			id, _ := vs.New(5 + en.R.Intn(40))
 			sc = append(sc, scriptStep{"IterMut", 1 + en.R.Intn(nkeys), id, a})
